@@ -725,7 +725,23 @@ func narrowExempt(p *Prog, cv *ssa.Convert) string {
 	// enum values table: len(acc) <= key of the range <= 254
 	if call, ok := cv.X.(*ssa.Call); ok && builtinName(call) == "len" {
 		for _, li := range loopsOf(cv.Parent()) {
-			if li.base == nil || !inLoop(li, cv.Block()) || !valuesBounded(p, li.base) {
+			if !inLoop(li, cv.Block()) {
+				continue
+			}
+			overValues := li.base != nil && valuesBounded(p, li.base)
+			if !overValues {
+				// classic counted loop: i < len(values) (possibly through a local holding the length)
+				if iff, ok := li.header.Instrs[len(li.header.Instrs)-1].(*ssa.If); ok {
+					if cmp, ok := iff.Cond.(*ssa.BinOp); ok && cmp.Op == token.LSS {
+						if lc, ok := cmp.Y.(*ssa.Call); ok && builtinName(lc) == "len" && valuesBounded(p, lc.Call.Args[0]) {
+							if phi, ok := cmp.X.(*ssa.Phi); ok && phi.Block() == li.header {
+								overValues = true
+							}
+						}
+					}
+				}
+			}
+			if !overValues {
 				continue
 			}
 			appends := map[*ssa.Call]bool{}
